@@ -421,7 +421,7 @@ impl<'a> CompiledPredicate<'a> {
 
         match op {
             UnaryOperator::Minus => match val {
-                Value::Int(n) => Some(Value::Int(-n)),
+                Value::Int(n) => n.checked_neg().map(Value::Int),
                 Value::Float(f) => Some(Value::Float(-f)),
                 _ => None,
             },
@@ -1078,23 +1078,23 @@ impl<'a> CompiledPredicate<'a> {
 
         match op {
             BinaryOperator::Plus => {
-                self.eval_arithmetic_op(left, right, |a, b| a + b, |a, b| a + b)
+                self.eval_arithmetic_op(left, right, i64::checked_add, |a, b| a + b)
             }
             BinaryOperator::Minus => {
-                self.eval_arithmetic_op(left, right, |a, b| a - b, |a, b| a - b)
+                self.eval_arithmetic_op(left, right, i64::checked_sub, |a, b| a - b)
             }
             BinaryOperator::Multiply => {
-                self.eval_arithmetic_op(left, right, |a, b| a * b, |a, b| a * b)
+                self.eval_arithmetic_op(left, right, i64::checked_mul, |a, b| a * b)
             }
             BinaryOperator::Divide => match (left, right) {
-                (Value::Int(a), Value::Int(b)) if *b != 0 => Some(Value::Int(a / b)),
+                (Value::Int(a), Value::Int(b)) if *b != 0 => a.checked_div(*b).map(Value::Int),
                 (Value::Int(a), Value::Float(b)) if *b != 0.0 => Some(Value::Float(*a as f64 / b)),
                 (Value::Float(a), Value::Int(b)) if *b != 0 => Some(Value::Float(a / *b as f64)),
                 (Value::Float(a), Value::Float(b)) if *b != 0.0 => Some(Value::Float(a / b)),
                 _ => None,
             },
             BinaryOperator::Modulo => match (left, right) {
-                (Value::Int(a), Value::Int(b)) if *b != 0 => Some(Value::Int(a % b)),
+                (Value::Int(a), Value::Int(b)) if *b != 0 => Some(Value::Int(a.wrapping_rem(*b))),
                 (Value::Float(a), Value::Float(b)) if *b != 0.0 => Some(Value::Float(a % b)),
                 (Value::Int(a), Value::Float(b)) if *b != 0.0 => Some(Value::Float(*a as f64 % b)),
                 (Value::Float(a), Value::Int(b)) if *b != 0 => Some(Value::Float(a % *b as f64)),
@@ -1804,11 +1804,12 @@ impl<'a> CompiledPredicate<'a> {
         float_op: G,
     ) -> Option<Value<'a>>
     where
-        F: Fn(i64, i64) -> i64,
+        F: Fn(i64, i64) -> Option<i64>,
         G: Fn(f64, f64) -> f64,
     {
         match (left, right) {
-            (Value::Int(a), Value::Int(b)) => Some(Value::Int(int_op(*a, *b))),
+            // None on overflow: the expression has no value (instead of wrapping or panicking)
+            (Value::Int(a), Value::Int(b)) => int_op(*a, *b).map(Value::Int),
             (Value::Float(a), Value::Float(b)) => Some(Value::Float(float_op(*a, *b))),
             (Value::Int(a), Value::Float(b)) => Some(Value::Float(float_op(*a as f64, *b))),
             (Value::Float(a), Value::Int(b)) => Some(Value::Float(float_op(*a, *b as f64))),
